@@ -11,14 +11,14 @@ PROPS = {
  "C05": dict(needs=REFINE + ["LinkStack", "Progress", "RunG", "FuelMono", "Float", "Arith", "Loops", "Loops2"], gen=["GenStack"], slices=[("slices_faults", "c05_ladders"), ("slices_core", "core_programs")]),
  "C07": dict(needs=REFINE + ["RunG", "Pure", "Eq", "Deep", "IOSpec", "MonadLaws"], gen=[], slices=[("slices_core", "io_trees")]),
  "C10": dict(needs=REFINE + ["RunG", "Exc", "Deep", "LinkErr"], gen=["GenErr"], slices=[("slices_lazy", "c10_faults"), ("slices_lazy", "c10_import_faults"), ("slices_core", "core_programs")]),
- "C11": dict(needs=CORE + ["Float", "Arith", "LinkArith"], gen=["GenArith"], slices=[("slices_core", "int_kernels"), ("slices_values", "c11_tower")]),
+ "C11": dict(needs=CORE + ["Float", "Arith", "LinkArith", "Eq", "Complex"], gen=["GenArith"], slices=[("slices_core", "int_kernels"), ("slices_values", "c11_tower")]),
  "C19": dict(needs=CORE + ["Events"], gen=[], slices=[("slices_core", "c19_dyck"), ("slices_core", "core_programs"), ("slices_core", "io_trees")]),
  "C01": dict(needs=["Base", "Num", "Lex", "Jamo", "SpecC01", "Skeleton"], gen=["GenParse", "GenTS"], slices=[("slices_text", "c01_exhaustive"), ("slices_text", "c01_model_points"), ("slices_text", "c01_respell")]),
  "C08": dict(needs=["Base", "Num", "NumProofs", "Lex", "ParseProofs", "Strings", "Builtins", "Interp", "LinkNames", "ImpSearch"], gen=["GenParse", "GenNames", "GenIO"], slices=[("slices_text", "c08_codec"), ("slices_text", "c08_spellings"), ("slices_world", "c15_search")]),
  "C09": dict(needs=["Base", "Num", "NumProofs", "Lex", "ParseProofs"], gen=["GenParse"], slices=[("slices_text", "c09_parse")]),
  "C14": dict(needs=["Files", "FilesProofs", "FilesTotal", "LinkNames"], gen=["GenIO"], slices=[("slices_world", "c14_histories"), ("slices_world", "c14_total_histories"), ("slices_world", "c14_faults")]),
  "C15": dict(needs=["ImpSearch", "ImportProofs", "ImpLoad"], gen=[], slices=[("slices_world", "c15_search"), ("slices_world", "c15_semantics")]),
- "C06": dict(needs=CORE + ["Float", "Eq"], gen=[], slices=[("slices_values", "c06_eq")]),
+ "C06": dict(needs=CORE + ["Float", "Eq", "Complex"], gen=[], slices=[("slices_values", "c06_eq")]),
  "C12": dict(needs=REFINE + ["SeqProofs", "SliceReal", "RunG", "SeqSpec"], gen=[], slices=[("slices_values", "c12_seq")]),
  "C16": dict(needs=CORE + ["RunG", "Codec", "Bits", "Utf", "Utf16"], gen=[], slices=[("slices_values", "c16_codecs")]),
  "C17": dict(needs=CORE + ["RunG", "Codec", "Bits", "LinkBits", "Float", "RoundProofs"], gen=["GenBitwise"], slices=[("slices_values", "c17_bits")]),
